@@ -179,6 +179,10 @@ def install(mon: Monitor) -> None:
     from odc.geo import overlap as O
 
     attach(O, "compute_output_geobox", post=post_output_geobox, on_error=_err, label="compute_output_geobox")
+    # the public wrappers promise the same thing: judged by the same oracle, whatever shortcut they take on the way
+    from odc.geo.geobox import GeoBox
+
+    attach(GeoBox, "to_crs", post=post_output_geobox, on_error=_err, label="GeoBox.to_crs")
 
 
 def one(mon: Monitor, rng: random.Random) -> None:
@@ -247,6 +251,12 @@ def one(mon: Monitor, rng: random.Random) -> None:
         call(xx.odc.output_geobox, target, **kw2)
     if rng.random() < 0.1:
         call(compute_output_geobox, src, rng.choice([src.crs, str(src.crs)]))
+    if rng.random() < 0.12:
+        # own CRS with a request that is not "leave it alone": another anchor / resolution / shape through each entry point
+        kw_same = rng.choice([{"anchor": "center"}, {"anchor": 0.25}, {"anchor": "floating"}, {"anchor": "center", "resolution": "same"}, {"resolution": "fit"}, {"shape": (rng.randint(3, 30), rng.randint(3, 30))},
+                              {"anchor": "edge"}, {"tight": True}])
+        own = rng.choice([src.crs, str(src.crs), str(src.crs).lower()])
+        call(src.to_crs, own, **kw_same) if rng.random() < 0.6 else call(compute_output_geobox, src, own, **kw_same)
 
 
 def run(mon: Monitor, tier: str, seed: int, shard: int, nshards: int) -> None:
